@@ -60,6 +60,10 @@ def checkpoint_restore(
             mngr.wait_until_finished()
             mngr.close()
             state = restored.state
+        else:
+            mngr.close()
+            if not ok_no_ckpt:
+                raise FileNotFoundError("Could not read from checkpoint: " + str(workdir))
     elif not ok_no_ckpt:
         raise FileNotFoundError("Could not read from checkpoint: " + str(workdir))
 
